@@ -22,7 +22,7 @@ def main(tier):
         PROP,
         "props.c18",
         tier,
-        5500,
+        8800,
         30000,
         rule_text='one evaluation per monitored fix+check run; non-trivial = regions were checked and a non-empty update was spliced; counters in monitor_totals.n',
         assumptions=['vsg.token_map.process_tokens over the current list defines a correct index', 'identity comparison of token objects'],
